@@ -16,9 +16,9 @@ structure W where
   st : Option S := none
   dead : Bool := false
 
-def tail (s : S) (ks : List String) : String :=
+def tail (univ : List String) (s : S) (ks : List String) : String :=
   let st := if s.b.failed then "Failed" else "Ready"
-  s!"G {fb s.b.cash} ; TV {fb (totalValue s.b ks)} ; S {st} ; K {s.srv.pos} {s.srv.date} {s.srv.dates.length} ; HL {s.hist.length} ; XB {s.srv.exch.buffer.length} ; H {Drv.Broker.showMap s.b.hold} ; W {ks.length} {joinSp ks}"
+  s!"G {fb s.b.cash} ; TV {fb (totalValue s.b ks)} ; S {st} ; K {s.srv.pos} {s.srv.date} {s.srv.dates.length} ; HL {s.hist.length} ; XB {s.srv.exch.buffer.length} ; H {Drv.Broker.showMap univ s.b.hold} ; W {ks.length} {joinSp ks}"
 
 def step (w : W) (ts : List String) : W × String :=
   let (op, secs) := Drv.Broker.splitAnn ts
@@ -47,13 +47,13 @@ def step (w : W) (ts : List String) : W × String :=
       match o, rest with
       | "INIT", [x] =>
         let s' := init w.v w.ncfFixed s (f64 x) ks
-        if s'.panicked then ({ w with st := some s' }, "PANIC")
-        else ({ w with st := some s' }, s!"EV ok ; {tail s' ks}")
+        if s'.panicked then ({ w with st := some { s' with b := Drv.Broker.compact (Drv.Broker.symUniverse w.syms) s'.b } }, "PANIC")
+        else ({ w with st := some { s' with b := Drv.Broker.compact (Drv.Broker.symUniverse w.syms) s'.b } }, s!"EV ok ; {tail (Drv.Broker.symUniverse w.syms) s' ks}")
       | "WD", [x] =>
         let r := PBk.withdraw s.b (f64 x)
         let s' := PSt.withdraw s (f64 x)
         let e := match r.1 with | .wOk _ => "WOK" | _ => "WFAIL"
-        ({ w with st := some s' }, s!"EV {e} ; {tail s' ks}")
+        ({ w with st := some { s' with b := Drv.Broker.compact (Drv.Broker.symUniverse w.syms) s'.b } }, s!"EV {e} ; {tail (Drv.Broker.symUniverse w.syms) s' ks}")
       | "UPDATE", [] =>
         match Drv.Broker.secOf secs "A" with
         | some (_ :: ["BAD"]) => (w, "REJECT-ADMISSION not-a-permutation-of-the-batch")
@@ -67,8 +67,8 @@ def step (w : W) (ts : List String) : W × String :=
             let s' := update w.v s adm ks ks
             match s'.hist.getLast? with
             | some sn =>
-              if s'.panicked then ({ w with st := some s' }, "PANIC")
-              else ({ w with st := some s' }, s!"EV ok ; SN {sn.date} {fb sn.value} {fb sn.ncf} ; {tail s' ks}")
+              if s'.panicked then ({ w with st := some { s' with b := Drv.Broker.compact (Drv.Broker.symUniverse w.syms) s'.b } }, "PANIC")
+              else ({ w with st := some { s' with b := Drv.Broker.compact (Drv.Broker.symUniverse w.syms) s'.b } }, s!"EV ok ; SN {sn.date} {fb sn.value} {fb sn.ncf} ; {tail (Drv.Broker.symUniverse w.syms) s' ks}")
             | none => (w, "bad-op")
         | _ => (w, "bad-op")
       | "RUNREST", [] =>
